@@ -92,7 +92,7 @@ def build_doc(c: dict) -> tuple[dict, str]:
         for _, m in props.items():
             if "$ref" in m:
                 m["$ref"] = m["$ref"].replace("#/$defs/", "#/components/schemas/")
-        return ({"openapi": "3.0.3", "info": {"title": "t", "version": "1"}, "paths": {},
+        return ({"openapi": "3.1.0" if '"null"' in json.dumps(obj) else "3.0.3", "info": {"title": "t", "version": "1"}, "paths": {},
                  "components": {"schemas": {"M": obj, **defs}}}, "openapi")
     doc = {"title": "M", **obj}
     if defs:
@@ -243,6 +243,20 @@ def _field_names(cls_name: str = "M") -> dict[str, str] | None:
     return None
 
 
+def _present(member: dict):
+    """a valid value for a member that is supplied"""
+    if member.get("default") is not None:
+        return copy.deepcopy(member["default"])
+    for comb in ("anyOf", "oneOf"):
+        if comb in member:
+            alts = [a for a in member[comb] if a.get("type") != "null"]
+            return _present(alts[0]) if alts else None
+    t = member.get("type")
+    if isinstance(t, list):
+        t = next((x for x in t if x != "null"), None)
+    return c05.PRESENT.get(t, 1)
+
+
 def judge(code: str, kind: str, doc_obj: dict, names: dict[str, str] | None, cls: str = "M") -> list[dict]:
     """Clauses of C05 (omission of non-required members) that fail on the exec'd class:
     [{clause, member, detail}] — at most one entry when the class cannot be created at all."""
@@ -250,7 +264,7 @@ def judge(code: str, kind: str, doc_obj: dict, names: dict[str, str] | None, cls
     required = set(doc_obj.get("required", []))
     names = names or {}
     py = {j: names.get(j, j) for j in props}
-    supplied_json = {j: c05.PRESENT.get(props[j].get("type"), 1) for j in required}
+    supplied_json = {j: _present(props[j]) for j in required}
     try:
         mod = e2e.load_module(code, kind)
     except BaseException as e:  # noqa: BLE001
@@ -468,15 +482,19 @@ def cases_from_disagreements(ck: Check, limit: int = 60) -> list[dict]:
         if sig in seen:
             continue
         seen.add(sig)
-        opts = {o: True for o in c05.opts_of(v)}
+        # strip_default_none takes the ` = None` of the capturer away (nothing is bound, and the omission it breaks is the
+        # known finding of the vector campaigns): not part of these documents
+        opts = {o: True for o in c05.opts_of(v) if o != "strip_default_none"}
         jn = c05.JSON_NAME[v["name"]]
         for name in eager + [n for n in every if n not in eager]:
             if name == jn:
                 continue
             for kind in [v["kind"]] + [k for k in c05.KINDS if k != v["kind"]]:
                 for form in ("nodefault", "strdefault"):
-                    out.append({"kind": kind, "name": name, "victims": [], "extra": [jn, member, bool(v["inreq"])], "opts": opts,
-                                "form": form, "dialect": "oa" if v["nullsrc"].startswith("oa") else "js"})
+                    # the member as a NON-required one first (that is what the omission clause speaks about), then as listed
+                    for inreq in ([False, True] if v["inreq"] else [False]):
+                        out.append({"kind": kind, "name": name, "victims": [], "extra": [jn, member, inreq], "opts": opts,
+                                    "form": form, "dialect": "oa" if v["nullsrc"].startswith("oa") else "js"})
         if len(seen) >= limit:
             break
     return out
